@@ -390,9 +390,9 @@ func (vc *VC) structSort(n *types.Named, st *types.Struct) string {
 		fs = append(fs, fmt.Sprintf("(%s_%s %s)", base, sanitize(fieldName(st, i)), vc.sortOf(st.Field(i).Type())))
 	}
 	if len(fs) == 0 {
-		vc.decls = append(vc.decls, fmt.Sprintf("(declare-datatype %s ((mk_%s)))", base, base))
+		vc.sortDecls = append(vc.sortDecls, fmt.Sprintf("(declare-datatype %s ((mk_%s)))", base, base))
 	} else {
-		vc.decls = append(vc.decls, fmt.Sprintf("(declare-datatype %s ((mk_%s %s)))", base, base, strings.Join(fs, " ")))
+		vc.sortDecls = append(vc.sortDecls, fmt.Sprintf("(declare-datatype %s ((mk_%s %s)))", base, base, strings.Join(fs, " ")))
 	}
 	return base
 }
